@@ -192,8 +192,11 @@ class Ctx:
         self.notes = {}
         self._nt_hashes = set()
         self._replay_k = 0
-        kf_path = os.path.join(VERIF, 'known_findings.json')
-        self.known = json.load(open(kf_path)) if os.path.exists(kf_path) else []
+        self.known = []
+        kfd = os.path.join(VERIF, 'known_findings.d')
+        for f in sorted(os.listdir(kfd)) if os.path.isdir(kfd) else []:
+            if f.endswith('.json'):
+                self.known += json.load(open(os.path.join(kfd, f)))
         self.quick = (tier == 'quick')
 
     # ---- counting -------------------------------------------------------------------------
@@ -217,18 +220,18 @@ class Ctx:
     # ---- Coq ------------------------------------------------------------------------------
     def ensure_static(self):
         """static theories are built by setup_cmd; re-check they are up to date (under a lock)"""
-        lock = open(os.path.join(VERIF, 'build', '.coq.lock'), 'w')
-        fcntl.flock(lock, fcntl.LOCK_EX)
-        try:
-            if not os.path.exists(os.path.join(COQ, 'Makefile')):
-                subprocess.run('coq_makefile -f _CoqProject -o Makefile', shell=True, cwd=COQ, check=True,
-                               stdout=subprocess.DEVNULL, stderr=subprocess.DEVNULL)
-            r = subprocess.run('timeout 3000 make -j16', shell=True, cwd=COQ, capture_output=True, text=True)
-            if r.returncode != 0:
-                raise RuntimeError('static Coq theories do not build:\n' + r.stdout[-3000:] + r.stderr[-3000:])
-        finally:
-            fcntl.flock(lock, fcntl.LOCK_UN)
-            lock.close()
+        if os.environ.get('KAWIN_SKIP_STATIC') != '1':
+            lock = open(os.path.join(VERIF, 'build', '.coq.lock'), 'w')
+            fcntl.flock(lock, fcntl.LOCK_EX)
+            try:
+                if not os.path.exists(os.path.join(COQ, 'Makefile')):
+                    subprocess.run('./mkproject.sh', shell=True, cwd=COQ, check=True)
+                r = subprocess.run('timeout 3000 make -j16', shell=True, cwd=COQ, capture_output=True, text=True)
+                if r.returncode != 0:
+                    raise RuntimeError('static Coq theories do not build:\n' + r.stdout[-3000:] + r.stderr[-3000:])
+            finally:
+                fcntl.flock(lock, fcntl.LOCK_UN)
+                lock.close()
         # forbidden constructs anywhere in the development
         bad = []
         for root, _, files in os.walk(COQ):
